@@ -23,7 +23,9 @@ EXPLANATION = (
     'reported values are read off as terms (look-up in the mapping returned by _evaluate for this instance, NaN '
     'default, the reference value exactly on the "node absent from this instance" side, values stored on the '
     'instance).  The spelling (nested ifs, guard clauses, flag variables, comprehension or loop, local helper) does '
-    'not matter.  Not decided: the values an evaluator returns.')
+    'not matter.  Permanence: the set returned by get_non_confirmed_nodes must (may-)depend on the confirmed-closure '
+    'component of traverse_until_choice_nodes (flow-insensitive data+control dependence; "no dependence" is a '
+    'definite verdict).  Not decided: the values an evaluator returns.')
 
 
 def predicates(ctx, rule='A17t'):
@@ -58,6 +60,141 @@ def predicates(ctx, rule='A17t'):
     ctx.ob(rule, fkey(cg, rule, 'confirmed-graph-removes-non-confirmed'), ok, cg.where,
            'the confirmed graph is the graph minus every node not reachable from the start nodes without passing '
            'a choice', '')
+
+
+def _may_depend_on_call_elem(fn_node, is_source_call, elem=0):
+    """Flow-insensitive MAY dependence (data + control) of the function's returned value on element `elem` of the
+    tuple returned by a call matching `is_source_call`.  Over-approximates (a name is one cell for the whole
+    function; every test of an enclosing compound statement and every test guarding a jump counts as a control
+    dependence), so 'no dependence' is a definite verdict and 'dependence' is not a proof of correctness."""
+    SRC = '<source>'
+    deps = {}
+    jump_tests = set()
+
+    def loads(e):
+        out = set()
+        if e is None:
+            return out
+        for x in ast.walk(e):
+            if isinstance(x, ast.Name):
+                out.add(x.id)
+            if isinstance(x, ast.Call) and is_source_call(x):
+                out.add(SRC)
+        return out
+
+    def base_name(t):
+        while isinstance(t, (ast.Subscript, ast.Attribute, ast.Starred)):
+            t = t.value
+        return t.id if isinstance(t, ast.Name) else None
+
+    def bind(t, used):
+        if isinstance(t, (ast.Tuple, ast.List)):
+            for e in t.elts:
+                bind(e, used)
+            return
+        b = base_name(t)
+        if b is not None:
+            deps.setdefault(b, set()).update(used)
+
+    returned = set()
+
+    def visit(stmts, ctrl):
+        for st in stmts:
+            if isinstance(st, (ast.Assign, ast.AnnAssign, ast.AugAssign)):
+                targets = st.targets if isinstance(st, ast.Assign) else [st.target]
+                val = st.value
+                if isinstance(val, ast.Call) and is_source_call(val) and len(targets) == 1 and \
+                        isinstance(targets[0], (ast.Tuple, ast.List)) and \
+                        not any(isinstance(e, ast.Starred) for e in targets[0].elts):
+                    rest = set(ctrl)
+                    for a in list(val.args) + [k.value for k in val.keywords]:
+                        rest |= loads(a)
+                    for i, e in enumerate(targets[0].elts):
+                        bind(e, rest | ({SRC} if i == elem else set()))
+                    continue
+                used = loads(val) | ctrl
+                for t in targets:
+                    bind(t, used | (loads(t) - {base_name(t)}))
+            elif isinstance(st, ast.Expr):
+                used = loads(st.value) | ctrl
+                for x in ast.walk(st.value):
+                    if isinstance(x, ast.Call) and isinstance(x.func, ast.Attribute):
+                        b = base_name(x.func.value)
+                        if b is not None:
+                            deps.setdefault(b, set()).update(used)
+            elif isinstance(st, ast.Return):
+                returned.update(loads(st.value) | ctrl)
+            elif isinstance(st, (ast.If, ast.While)):
+                c = ctrl | loads(st.test)
+                if any(isinstance(x, (ast.Return, ast.Continue, ast.Break, ast.Raise)) for x in ast.walk(st)):
+                    jump_tests.update(c)
+                visit(st.body, c)
+                visit(st.orelse, c)
+            elif isinstance(st, (ast.For, ast.AsyncFor)):
+                c = ctrl | loads(st.iter)
+                bind(st.target, c)
+                visit(st.body, c)
+                visit(st.orelse, c)
+            elif isinstance(st, (ast.With, ast.AsyncWith)):
+                for it in st.items:
+                    if it.optional_vars is not None:
+                        bind(it.optional_vars, loads(it.context_expr) | ctrl)
+                visit(st.body, ctrl)
+            elif isinstance(st, ast.Try):
+                visit(st.body, ctrl)
+                for h in st.handlers:
+                    visit(h.body, ctrl)
+                visit(st.orelse, ctrl)
+                visit(st.finalbody, ctrl)
+            elif isinstance(st, (ast.FunctionDef, ast.AsyncFunctionDef)):
+                deps.setdefault(st.name, set()).update(loads(st) | ctrl)
+                visit(st.body, ctrl)
+            else:
+                for x in ast.walk(st):
+                    if isinstance(x, ast.NamedExpr):
+                        bind(x.target, loads(x.value) | ctrl)
+
+    visit(fn_node.body, set())
+    for x in ast.walk(fn_node):     # walrus / comprehension variables inside expressions
+        if isinstance(x, ast.NamedExpr):
+            bind(x.target, loads(x.value))
+        elif isinstance(x, ast.comprehension):
+            bind(x.target, loads(x.iter))
+    seen, todo = set(), list(returned | jump_tests)
+    while todo:
+        n = todo.pop()
+        if n in seen:
+            continue
+        seen.add(n)
+        todo.extend(deps.get(n, ()))
+    return SRC in seen, sorted(seen - {SRC})
+
+
+def non_confirmed_rule(ctx, rule='A17t'):
+    """Permanence of a metric node rests on get_non_confirmed_nodes: a node is non-confirmed iff it is NOT in the
+    closure traverse_until_choice_nodes reaches from the start nodes without passing a choice (a node below a choice
+    that also has a derivation path from the permanent part is confirmed).  Necessary condition decided here: the
+    returned set depends on the confirmed-nodes component (first element) of that traversal."""
+    fn = ctx.fn(f'{TRAV}:get_non_confirmed_nodes')
+    unit = unit_functions(ctx.prog, fn)
+    carriers = set()
+    for h in unit[1:]:
+        if any(call_name(c) == 'traverse_until_choice_nodes' for c in calls(h)):
+            carriers.add(h.name)
+
+    def is_src(c):
+        nm = call_name(c)
+        return nm == 'traverse_until_choice_nodes' or (nm or '').split('.')[-1] in carriers
+
+    if not any(is_src(c) for c in calls(fn)):
+        raise AnalysisError('get_non_confirmed_nodes no longer calls traverse_until_choice_nodes (directly or through a '
+                            'private helper): the confirmed closure it complements cannot be located')
+    dep, through = _may_depend_on_call_elem(fn.node, is_src, elem=0)
+    ctx.ob(rule, fkey(fn, rule, 'non-confirmed-complements-confirmed-closure'), dep, fn.where,
+           'the set returned by get_non_confirmed_nodes depends (data or control) on the confirmed-nodes component '
+           '(first element) of traverse_until_choice_nodes: non-confirmed is the complement of the closure reached '
+           'without passing a choice, not "everything below a choice"',
+           f'returned value may depend on: {through[:12]}')
 
 
 def _metric_type_values(ctx):
@@ -453,6 +590,7 @@ def evaluate_rules(ctx, rule='A17e'):
 
 def check(ctx):
     predicates(ctx)
+    non_confirmed_rule(ctx)
     typing_rules(ctx)
     evaluate_rules(ctx)
     ctx.floor('A17c', 12, 'typing clauses')
@@ -497,6 +635,18 @@ VARIANTS = [
     V('min-max-swapped', 'optimization/dv_output_defs.py',
       [("        direction = Direction.MIN if metric_node.dir <= 0 else Direction.MAX", "        direction = Direction.MIN if metric_node.dir >= 0 else Direction.MAX")],
       key='direction-mapping'),
+    V('non-confirmed-is-everything-below-a-choice', 'graph/traversal.py',
+      [('    confirmed_nodes, _ = traverse_until_choice_nodes(graph, set(start_nodes))\n\n    # Get non-confirmed nodes\n    non_confirmed_nodes = set(graph.nodes) - confirmed_nodes\n    return non_confirmed_nodes', "    _, choice_nodes = traverse_until_choice_nodes(graph, set(start_nodes))\n\n    non_confirmed_nodes = set(choice_nodes)\n    to_visit = list(choice_nodes)\n    while len(to_visit) > 0:\n        for edge in iter_out_edges(graph, to_visit.pop()):\n            if edge[1] not in non_confirmed_nodes:\n                non_confirmed_nodes.add(edge[1])\n                to_visit.append(edge[1])\n    return non_confirmed_nodes")],
+      key='non-confirmed-complements-confirmed-closure'),
+    V('non-confirmed-ignores-closure', 'graph/traversal.py',
+      [('    confirmed_nodes, _ = traverse_until_choice_nodes(graph, set(start_nodes))\n\n    # Get non-confirmed nodes\n    non_confirmed_nodes = set(graph.nodes) - confirmed_nodes\n    return non_confirmed_nodes', "    confirmed_nodes, choice_nodes = traverse_until_choice_nodes(graph, set(start_nodes))\n    non_confirmed_nodes = set(graph.nodes) - set(start_nodes)\n    return non_confirmed_nodes")],
+      key='non-confirmed-complements-confirmed-closure'),
+    V('twin-non-confirmed-as-loop', 'graph/traversal.py',
+      [('    confirmed_nodes, _ = traverse_until_choice_nodes(graph, set(start_nodes))\n\n    # Get non-confirmed nodes\n    non_confirmed_nodes = set(graph.nodes) - confirmed_nodes\n    return non_confirmed_nodes', "    closure = traverse_until_choice_nodes(graph, set(start_nodes))[0]\n    non_confirmed_nodes = set()\n    for node in graph.nodes:\n        if node in closure:\n            continue\n        non_confirmed_nodes.add(node)\n    return non_confirmed_nodes")],
+      expect='silent'),
+    V('twin-non-confirmed-as-comprehension', 'graph/traversal.py',
+      [('    confirmed_nodes, _ = traverse_until_choice_nodes(graph, set(start_nodes))\n\n    # Get non-confirmed nodes\n    non_confirmed_nodes = set(graph.nodes) - confirmed_nodes\n    return non_confirmed_nodes', "    res = traverse_until_choice_nodes(graph, set(start_nodes))\n    confirmed_nodes = res[0]\n    return {node for node in graph.nodes if node not in confirmed_nodes}")],
+      expect='silent'),
     V('twin-objective-predicate-reordered', 'optimization/graph_processor.py',
       [("        return metric_node.dir is not None and metric_node in permanent_nodes", "        return metric_node in permanent_nodes and not (not (metric_node.dir is not None))")],
       expect='silent'),
